@@ -657,22 +657,6 @@ func init() {
 			ok := and(numericDtype(x.tDtype(st, t)), eq(x.scalarDtype(args[1]), x.tDtype(st, t)))
 			return x.resultTE(fr, i, ok, res)
 		})
-	reg("sort.Ints", "sorts the slice in place (ascending permutation of its elements)", func(x *Exec, fr *Frame, i *ssa.Call, fn *ssa.Function, args []Val) Val {
-		st := fr.curSt
-		s := args[0]
-		x.checkFrameWrite(fr, "E$int$0", s.base(), s.off(), "sort.Ints writes its argument")
-		oldS, newS := x.havocComp(st, "E$int$0", elemSort(SInt))
-		x.recordStore("E$int$0", s.base())
-		x.emit(sx("assert", fmt.Sprintf("(forall ((r Int)) (! (=> (not (= r %s)) (= (select %s r) (select %s r))) :pattern ((select %s r))))", s.base(), newS, oldS, newS)))
-		lo, hi := s.off(), add(s.off(), s.slen())
-		x.emit(sx("assert", fmt.Sprintf("(forall ((j Int)) (! (=> (or (< j %s) (>= j %s)) (= (select (select %s %s) j) (select (select %s %s) j))) :pattern ((select (select %s %s) j))))",
-			lo, hi, newS, s.base(), oldS, s.base(), newS, s.base())))
-		x.emit(sx("assert", fmt.Sprintf("(forall ((a Int) (b Int)) (=> (and (<= %s a) (<= a b) (< b %s)) (<= (select (select %s %s) a) (select (select %s %s) b))))", lo, hi, newS, s.base(), newS, s.base())))
-		// permutation: every new element is an old one and vice versa
-		x.emit(sx("assert", fmt.Sprintf("(forall ((a Int)) (=> (and (<= %s a) (< a %s)) (exists ((b Int)) (and (<= %s b) (< b %s) (= (select (select %s %s) a) (select (select %s %s) b))))))", lo, hi, lo, hi, newS, s.base(), oldS, s.base())))
-		x.emit(sx("assert", fmt.Sprintf("(forall ((a Int)) (=> (and (<= %s a) (< a %s)) (exists ((b Int)) (and (<= %s b) (< b %s) (= (select (select %s %s) a) (select (select %s %s) b))))))", lo, hi, lo, hi, oldS, s.base(), newS, s.base())))
-		return Val{T: types.NewTuple()}
-	})
 	for _, name := range []string{"Acos", "Acosh", "Asin", "Asinh", "Atan", "Atanh", "Cos", "Cosh", "Sin", "Sinh", "Tan"} {
 		name := name
 		reg("math."+name, "uninterpreted float64 function (accuracy of the Go math library is assumed)", func(x *Exec, fr *Frame, i *ssa.Call, fn *ssa.Function, args []Val) Val {
